@@ -4,6 +4,23 @@ import (
 	"fmt"
 )
 
+// verifFailStore wraps the real in-memory store (Store is an interface in the
+// real wiring) and makes one chosen SetBlock call fail, as a transient database
+// error would.
+type verifFailStore struct {
+	*InmemStore
+	failAt int
+	calls  int
+}
+
+func (s *verifFailStore) SetBlock(b *Block) error {
+	s.calls++
+	if s.calls-1 == s.failAt {
+		return fmt.Errorf("transient store error")
+	}
+	return s.InmemStore.SetBlock(b)
+}
+
 // C02/O1 — ProcessDecidedRounds: in-order, exactly-once processing.  The
 // pending queue holds rounds 1..k (k = 1..3, thorough 4) with SYMBOLIC Decided
 // flags; each round has a cached frame which is empty, payload-free or carries
@@ -21,6 +38,11 @@ func VerifHarness_C02_O1() {
 	verifAssume(L >= -1 && L < 1<<40)
 	vn.store.lastBlock = L
 	failAt := verifChoice("commitFailsAt", k+1) // k = never
+	storeFailAt := -1
+	if failAt == k && verifChoice("storeWriteFails", 2) == 1 {
+		storeFailAt = verifChoice("storeWriteFailsAt", k)
+		h.Store = &verifFailStore{InmemStore: vn.store, failAt: storeFailAt}
+	}
 	var delivered []*Block
 	h.commitCallback = func(b *Block) error {
 		delivered = append(delivered, b)
@@ -58,6 +80,35 @@ func VerifHarness_C02_O1() {
 		h.PendingRounds.Set(&PendingRound{Index: r, Decided: decided[r]})
 	}
 	err := h.ProcessDecidedRounds()
+	if storeFailAt >= 0 {
+		// a failed store write must not lose the round: it stays queued (with
+		// everything after it) and a later pass, once the store works again,
+		// delivers it; nothing is delivered twice.
+		payloadRounds := 0
+		pfx := 0
+		for r := 1; r <= k; r++ {
+			if decided[r] && pfx == r-1 {
+				pfx = r
+				if kind[r] == 2 {
+					payloadRounds++
+				}
+			}
+		}
+		if storeFailAt < payloadRounds {
+			verifAssert("store-error-reported", err != nil)
+			verifAssert("only-the-rounds-before-the-failure-were-delivered", len(delivered) == storeFailAt)
+			err2 := h.ProcessDecidedRounds()
+			verifAssert("retry-succeeds", err2 == nil)
+			verifAssert("no-round-lost-none-twice-after-retry", len(delivered) == payloadRounds && len(h.PendingRounds.GetOrderedPendingRounds()) == k-pfx)
+			for i, b := range delivered {
+				verifAssert(fmt.Sprintf("retry-delivery-%d-index-consecutive", i), b.Index() == L+1+i)
+			}
+		} else {
+			verifAssert("no-failure-hit", err == nil && len(delivered) == payloadRounds)
+		}
+		verifReach("end-store-failure")
+		return
+	}
 	// maximal decided prefix
 	prefix := 0
 	for r := 1; r <= k; r++ {
